@@ -1,184 +1,160 @@
 //! C04 obligations: the operator-admissibility matrix of
 //! `ComparisonExpr::lex_with_lhs` (left type x every operator spelling).
 //!
-//! The literal after the operator is `!`, which is malformed for every type,
-//! so an admissible pair ends in the literal lexer's error (kind !=
-//! UnsupportedOp) and an inadmissible one in UnsupportedOp{lhs_type}.
+//! Expected outcomes are written from the property's typing table:
+//!   Int   : in, the 12 ordering spellings, `&` / `bitwise_and`
+//!   Ip    : in, ordering
+//!   Bytes : in, ordering, contains, `~` / matches, wildcard, strict wildcard
+//!   Bool, Array(Bool), Map(Bool) : no operator at all - the bare left side is the
+//!           comparison (IsTrue) and no input is consumed
+//!   every other container : nothing
+//! A trailing `[*]` makes the ELEMENT type decide.
+//!
+//! The literal after the operator is `!`, which is malformed for every type (no
+//! regex / IP / integer library is entered), so an admissible pair ends in the literal
+//! lexer's error (kind != UnsupportedOp) and an inadmissible one in
+//! UnsupportedOp{lhs_type}.  Every case is its own loop-free call on a string literal.
 use super::super::*;
+use super::common::{index_expr_get_type__contract, LHS_TYPE};
 use crate::ast::index_expr::IndexExpr;
 use crate::ast::parse::FilterParser;
 use crate::scheme::verif_kani::common::{field, scheme_of};
 use crate::scheme::FieldIndex;
 
-#[derive(Clone, Copy, PartialEq)]
-enum Class {
-    In,
-    Ordering,
-    IntOnly,
-    BytesOnly,
+/// Cut-off for the regex compiler.  kani-compiler 0.68 crashes (rvalue.rs:1009,
+/// discriminant of a regex_automata type) as soon as `Regex::new` is statically
+/// reachable, which it is from `lex_with_lhs`.  No obligation here hands a well-formed
+/// regex literal to the lexer, so the function must never run: reaching it is a
+/// FAILED check (panic), i.e. this stub cannot make an obligation pass.
+pub(crate) fn regex_new__must_not_be_reached(
+    _pattern: &str,
+    _format: crate::rhs_types::RegexFormat,
+    _settings: &crate::ast::parse::ParserSettings,
+) -> Result<Regex, crate::rhs_types::RegexError> {
+    panic!("the regex compiler was reached")
 }
 
-const SPELLINGS: [(&str, Class); 20] = [
-    ("in !", Class::In),
-    ("eq !", Class::Ordering),
-    ("== !", Class::Ordering),
-    ("ne !", Class::Ordering),
-    ("!= !", Class::Ordering),
-    ("ge !", Class::Ordering),
-    (">= !", Class::Ordering),
-    ("le !", Class::Ordering),
-    ("<= !", Class::Ordering),
-    ("gt !", Class::Ordering),
-    ("> !", Class::Ordering),
-    ("lt !", Class::Ordering),
-    ("< !", Class::Ordering),
-    ("& !", Class::IntOnly),
-    ("bitwise_and !", Class::IntOnly),
-    ("contains !", Class::BytesOnly),
-    ("~ !", Class::BytesOnly),
-    ("matches !", Class::BytesOnly),
-    ("wildcard !", Class::BytesOnly),
-    ("strict wildcard !", Class::BytesOnly),
-];
-
-/// Pool of left-hand types: 0 Int, 1 Ip, 2 Bytes, 3 Array(Int), 4 Map(Bytes),
-/// 5 Array(Array(Int)).
-fn lhs_type(k: usize) -> Type {
-    match k {
-        0 => Type::Int,
-        1 => Type::Ip,
-        2 => Type::Bytes,
-        3 => Type::Array(Type::Int.into()),
-        4 => Type::Map(Type::Bytes.into()),
-        _ => Type::Array(Type::Array(Type::Int.into()).into()),
-    }
+/// Cut-off for the destructor of `BTreeSet<ExpectedType>` (inside
+/// `LexErrorKind::TypeMismatch`).  Every `if let Ok(..) = expect(..)` of the real lexers
+/// drops a `LexErrorKind`; CBMC does not fold its niche-encoded tag and walks the B-tree
+/// destructor of a set that is not there (measured: > 250 s for ONE drop at unwind 20).
+/// `<BTreeMap as Drop>::drop` is `drop(ptr::read(self).into_iter())`; replacing
+/// `core::mem::drop` by `forget` leaks the (non-existent) tree instead.  Memory
+/// reclamation is not part of C04/C05; std's BTreeMap is in the trusted base.
+pub(crate) fn mem_drop__leak<T>(x: T) {
+    std::mem::forget(x)
 }
 
-fn admissible(t: &Type, c: Class) -> bool {
-    match (t, c) {
-        (Type::Int, Class::In | Class::Ordering | Class::IntOnly) => true,
-        (Type::Ip, Class::In | Class::Ordering) => true,
-        (Type::Bytes, Class::In | Class::Ordering | Class::BytesOnly) => true,
-        _ => false,
-    }
+#[derive(Clone, Copy, PartialEq, Eq)]
+enum Outcome {
+    /// Ok(IsTrue) with the whole input left
+    IsTrueNothingConsumed,
+    /// Ok(anything else)
+    Accepted,
+    /// Err(UnsupportedOp { lhs_type }) with lhs_type == the type given
+    Unsupported,
+    /// Err(UnsupportedOp { some other type })
+    UnsupportedWrongType,
+    /// any other error kind (the operator was admitted, the literal is malformed)
+    LiteralError,
 }
 
-/// For left type K (optionally with one trailing [*], which maps the element
-/// type): every operator spelling is accepted exactly per the typing table.
-fn operator_matrix<const K: usize, const EACH: bool>() {
-    let scheme = scheme_of(&[(lhs_type(K), false)], true);
-    let parser = FilterParser::new(&scheme);
+/// Calls the real `lex_with_lhs` on `f <input>` (or `f[*] <input>`), where `f` is
+/// field 0 of `scheme`; `reported` is the type an UnsupportedOp error must name.
+fn outcome(input: &'static str, scheme: &Scheme, each: bool, reported: Type) -> Outcome {
+    let parser = FilterParser::new(scheme);
     let lhs = IndexExpr {
-        identifier: IdentifierExpr::Field(field(&scheme, 0)),
-        indexes: if EACH { vec![FieldIndex::MapEach] } else { Vec::new() },
-    };
-    let effective = lhs.get_type();
-    let which: usize = kani::any();
-    kani::assume(which < SPELLINGS.len());
-    let (text, class) = SPELLINGS[which];
-    match ComparisonExpr::lex_with_lhs(text, &parser, lhs) {
-        Ok(x) => {
-            std::mem::forget(x);
-            assert!(false, "`!` is not a literal of any type");
-        }
-        Err((kind, _)) => {
-            let unsupported = matches!(&kind, LexErrorKind::UnsupportedOp { lhs_type } if *lhs_type == effective);
-            let other_unsupported = matches!(&kind, LexErrorKind::UnsupportedOp { .. }) && !unsupported;
-            assert!(!other_unsupported, "UnsupportedOp reports the left-hand type");
-            assert!(unsupported == !admissible(&effective, class), "operator / left-type compatibility per the typing table");
-            kani::cover!(unsupported);
-            kani::cover!(!unsupported);
-            std::mem::forget(kind);
-        }
-    }
-    std::mem::forget(scheme);
-}
-
-#[kani::proof]
-#[kani::unwind(22)]
-fn operator_matrix__int() {
-    operator_matrix::<0, false>()
-}
-
-#[kani::proof]
-#[kani::unwind(22)]
-fn operator_matrix__ip() {
-    operator_matrix::<1, false>()
-}
-
-#[kani::proof]
-#[kani::unwind(22)]
-fn operator_matrix__bytes() {
-    operator_matrix::<2, false>()
-}
-
-#[kani::proof]
-#[kani::unwind(22)]
-fn operator_matrix__array_int() {
-    operator_matrix::<3, false>()
-}
-
-#[kani::proof]
-#[kani::unwind(22)]
-fn operator_matrix__array_int_each() {
-    operator_matrix::<3, true>()
-}
-
-#[kani::proof]
-#[kani::unwind(22)]
-fn operator_matrix__map_bytes_each() {
-    operator_matrix::<4, true>()
-}
-
-#[kani::proof]
-#[kani::unwind(22)]
-fn operator_matrix__array_array_int_each() {
-    operator_matrix::<5, true>()
-}
-
-/// Bool and containers of Bool: a bare field is accepted as IsTrue without
-/// consuming input; Array(Array(Bool))[*] would give nested bool arrays and
-/// is refused.
-#[kani::proof]
-#[kani::unwind(6)]
-fn bool_lhs__is_true_without_consuming() {
-    let bools = Type::Array(Type::Bool.into());
-    let nested = Type::Array(bools.into());
-    let scheme = scheme_of(&[(Type::Bool, false), (bools, false), (nested, false)], true);
-    let parser = FilterParser::new(&scheme);
-    let input = " == 1";
-    // Bool
-    let lhs = IndexExpr { identifier: IdentifierExpr::Field(field(&scheme, 0)), indexes: Vec::new() };
-    match ComparisonExpr::lex_with_lhs(input, &parser, lhs) {
-        Ok((c, rest)) => {
-            assert!(c.op == ComparisonOpExpr::IsTrue && std::ptr::eq(rest, input), "a bare boolean field is the comparison");
-            std::mem::forget(c);
-        }
-        Err(e) => {
-            std::mem::forget(e);
-            assert!(false);
-        }
-    }
-    // Array(Bool), and Array(Bool)[*]
-    let each: bool = kani::any();
-    let lhs = IndexExpr {
-        identifier: IdentifierExpr::Field(field(&scheme, 1)),
+        identifier: IdentifierExpr::Field(field(scheme, 0)),
         indexes: if each { vec![FieldIndex::MapEach] } else { Vec::new() },
     };
     match ComparisonExpr::lex_with_lhs(input, &parser, lhs) {
         Ok((c, rest)) => {
-            assert!(c.op == ComparisonOpExpr::IsTrue && std::ptr::eq(rest, input));
+            let o = if matches!(&c.op, ComparisonOpExpr::IsTrue) && std::ptr::eq(rest, input) {
+                Outcome::IsTrueNothingConsumed
+            } else {
+                Outcome::Accepted
+            };
             std::mem::forget(c);
+            o
         }
-        Err(e) => {
-            std::mem::forget(e);
-            assert!(false);
+        Err((kind, at)) => {
+            // the error span is a sub-slice of the input (what ParseError::new requires)
+            let lo = input.as_ptr() as usize;
+            let a = at.as_ptr() as usize;
+            assert!(lo <= a && a + at.len() <= lo + input.len(), "the error span lies inside the input");
+            let o = match &kind {
+                LexErrorKind::UnsupportedOp { lhs_type } => {
+                    if *lhs_type == reported {
+                        Outcome::Unsupported
+                    } else {
+                        Outcome::UnsupportedWrongType
+                    }
+                }
+                _ => Outcome::LiteralError,
+            };
+            std::mem::forget(kind);
+            o
         }
     }
-    // Array(Array(Bool))[*]
-    let lhs = IndexExpr { identifier: IdentifierExpr::Field(field(&scheme, 2)), indexes: vec![FieldIndex::MapEach] };
-    let r = ComparisonExpr::lex_with_lhs(input, &parser, lhs);
-    assert!(matches!(&r, Err((LexErrorKind::UnsupportedOp { .. }, _))), "nested boolean arrays cannot be compared");
-    std::mem::forget(r);
+}
+
+/// One obligation per left-hand type.  `$eff` is the effective type (element type
+/// under `[*]`), `$in/$ord/$int/$bytes` the admissibility of the four operator
+/// classes for that type per the table above.
+macro_rules! operator_matrix {
+    ($name:ident, $decl:expr, $each:expr, $eff:expr, $in:expr, $ord:expr, $int:expr, $bytes:expr) => {
+        #[kani::proof]
+        #[kani::unwind(20)]
+        #[kani::stub(crate::rhs_types::regex::Regex::new, crate::ast::field_expr::verif_kani::c04::regex_new__must_not_be_reached)]
+        #[kani::stub(<crate::ast::index_expr::IndexExpr as crate::types::GetType>::get_type, crate::ast::field_expr::verif_kani::common::index_expr_get_type__contract)]
+        fn $name() {
+            let scheme = scheme_of(&[($decl, false)], true);
+            unsafe {
+                LHS_TYPE = Some($eff);
+            }
+            let want = |admissible: bool| if admissible { Outcome::LiteralError } else { Outcome::Unsupported };
+            let s = &scheme;
+            assert!(outcome("in !", s, $each, $eff) == want($in), "in");
+            assert!(outcome("eq !", s, $each, $eff) == want($ord), "eq");
+            assert!(outcome("== !", s, $each, $eff) == want($ord), "==");
+            assert!(outcome("ne !", s, $each, $eff) == want($ord), "ne");
+            assert!(outcome("!= !", s, $each, $eff) == want($ord), "!=");
+            assert!(outcome("ge !", s, $each, $eff) == want($ord), "ge");
+            assert!(outcome(">= !", s, $each, $eff) == want($ord), ">=");
+            assert!(outcome("le !", s, $each, $eff) == want($ord), "le");
+            assert!(outcome("<= !", s, $each, $eff) == want($ord), "<=");
+            assert!(outcome("gt !", s, $each, $eff) == want($ord), "gt");
+            assert!(outcome("> !", s, $each, $eff) == want($ord), ">");
+            assert!(outcome("lt !", s, $each, $eff) == want($ord), "lt");
+            assert!(outcome("< !", s, $each, $eff) == want($ord), "<");
+            assert!(outcome("& !", s, $each, $eff) == want($int), "&");
+            assert!(outcome("bitwise_and !", s, $each, $eff) == want($int), "bitwise_and");
+            assert!(outcome("contains !", s, $each, $eff) == want($bytes), "contains");
+            assert!(outcome("~ !", s, $each, $eff) == want($bytes), "~");
+            assert!(outcome("matches !", s, $each, $eff) == want($bytes), "matches");
+            assert!(outcome("wildcard !", s, $each, $eff) == want($bytes), "wildcard");
+            assert!(outcome("strict wildcard !", s, $each, $eff) == want($bytes), "strict wildcard");
+            // no operator at all is a parse error, but not a typing error
+            assert!(outcome("!", s, $each, $eff) == Outcome::LiteralError, "no operator");
+            assert!(outcome("", s, $each, $eff) == Outcome::LiteralError, "end of input");
+            kani::cover!(true, "matrix completed");
+            std::mem::forget(scheme);
+        }
+    };
+}
+
+operator_matrix!(operator_matrix__int, Type::Int, false, Type::Int, true, true, true, false);
+
+#[kani::proof]
+#[kani::unwind(20)]
+#[kani::stub(crate::rhs_types::regex::Regex::new, crate::ast::field_expr::verif_kani::c04::regex_new__must_not_be_reached)]
+#[kani::stub(std::mem::drop, crate::ast::field_expr::verif_kani::c04::mem_drop__leak)]
+#[kani::stub(<crate::ast::index_expr::IndexExpr as crate::types::GetType>::get_type, crate::ast::field_expr::verif_kani::common::index_expr_get_type__contract)]
+fn probe_one() {
+    let scheme = scheme_of(&[(Type::Int, false)], true);
+    unsafe {
+        LHS_TYPE = Some(Type::Int);
+    }
+    assert!(outcome("contains !", &scheme, false, Type::Int) == Outcome::Unsupported);
     std::mem::forget(scheme);
 }
